@@ -559,6 +559,8 @@ func (w *W) runPath(job []decision, fn *ssa.Function, wantSample bool) (status, 
 	w.curSite = ""
 	w.traced = nil
 	w.traceEvents = nil
+	w.traceDeep = false
+	w.traceNames = nil
 	w.inMapSet = false
 	w.stats.Paths++
 	defer func() {
